@@ -27,16 +27,20 @@ def k1_lemmas(tier):
     return ls
 
 
+def u2_lemma():
+    return Lemma("U2.Options", "verifHarness_U2_Options", ["zz_verif_u2.go"],
+                 desc="newInternalParsedJson with a reused object whose internal state is arbitrary (as returned by Parse, or a by-value "
+                      "copy): string copying is on unless this call's options disable it", bound="all option lists of <= 2 WithCopyStrings",
+                 expect_reach=["U2.options"])
+
+
 def run(ctx):
     ctx.assume("copy mode: every generated tape with strings in Strings.B carries an ARBITRARY (symbolic) Message, so each T1/T3/T6/Z1 verdict "
                "already holds for any later overwrite of the input buffer (K2); that the parser tags every string with the buffer flag in "
                "copy mode is lemma S6 (stage 2)")
     ctx.assume("values delivered by ParseNDStream: pool/buffer discipline is part of C09 (Q2)")
     ls = k1_lemmas(ctx.tier)
-    ls.append(Lemma("U2.Options", "verifHarness_U2_Options", ["zz_verif_u2.go"],
-                    desc="newInternalParsedJson with a reused object whose internal state is arbitrary (as returned by Parse, or a by-value "
-                         "copy): string copying is on unless this call's options disable it", bound="all option lists of <= 2 WithCopyStrings",
-                    expect_reach=["U2.options"]))
+    ls.append(u2_lemma())
     # K2: readers on copy-mode tapes with arbitrary Message contents
     ls += [l for l in C02.t1_lemmas(ctx.tier, sizes=range(4, 8)) if ".Advance." in l.name or ".AdvanceInto." in l.name]
     # the parser side: in copy mode every string entry carries the buffer flag (asserted on every accepting path), in no-copy
